@@ -31,13 +31,13 @@ ALTS = ['absent', 'dir', 'file']
 LOCS = ['home', 'other', 'nested', 'via-symlink', 'linkdir-slash']
 ENVS = ['xdg', 'unset', 'empty', 'nohome', 'none', 'local-link', 'xdg-under-link']
 OPTS = ['-', 'td-same', 'td-other', 'td-symlink', 'td-under-link']
-FBS = ['off', 'flag', 'env', 'both']
+FBS = ['off', 'flag', 'env', 'both', 'flag+env0', 'flag+envyes']
 
 
 def dimensions(tier):
     q = tier != 'thorough'
     return {'mounts': 3 if q else 5, 'top': 5, 'top_uid': 2, 'alt': 3, 'location': 5, 'env': 7,
-            'option': 4 if q else 5, 'fallback': 2 if q else 4, 'uid': 1 if q else 2}
+            'option': 4 if q else 5, 'fallback': 3 if q else 6, 'uid': 1 if q else 2}
 
 
 def cases(tier):
@@ -45,7 +45,7 @@ def cases(tier):
     out = []
     for uid in ([0] if q else [0, 1000]):
         for m in (['v1', 'home', 'nested'] if q else list(MOUNTS)):
-            for fb in (['off', 'both'] if q else FBS):
+            for fb in (['off', 'both', 'flag+env0'] if q else FBS):
                 for o in (['-', 'td-same', 'td-other', 'td-under-link'] if q else OPTS):
                     for e in ENVS:
                         for loc in LOCS:
@@ -67,6 +67,8 @@ def run_case(c):
            'empty': {'HOME': '/home/u', 'XDG_DATA_HOME': ''}, 'nohome': {'XDG_DATA_HOME': '/home/u/xdg'}, 'none': {}}[c['env']]
     if c['fb'] in ('env', 'both'):
         env['TRASH_ENABLE_HOME_FALLBACK'] = '1'
+    if c['fb'] in ('flag+env0', 'flag+envyes'):
+        env['TRASH_ENABLE_HOME_FALLBACK'] = '0' if c['fb'] == 'flag+env0' else 'yes'      # only the value 1 enables it
     W = scen.base_world(mounts=mounts, env=env, uid=uid, cwd='/home/u/w')
     W.dir('/mnt/v1/w/sub').dir('/mnt/v1/inner/w').dir('/mnt/v2/w').dir('/home/u/xdg')
     if c['env'] == 'local-link':
@@ -127,13 +129,13 @@ def run_case(c):
         T = E.rsplit('/', 2)[0] + '/farlink/mytrash'                                  # the trash dir's PARENT is a link
     if T:
         argv += ['--trash-dir', T]
-    if c['fb'] in ('flag', 'both'):
+    if c['fb'] in ('flag', 'both', 'flag+env0', 'flag+envyes'):
         argv.append('--home-fallback')
     argv.append(arg)
     with cell.Sandbox(W.spec()) as sb:
         before = sb.snapshot()
         ref = sb.probe(chooser.choose, {'arg': arg, 'mounts': mounts, 'env': env, 'uid': uid, 'trash_dir': T,
-                                         'flag': c['fb'] in ('flag', 'both')}, cwd='/home/u/w')
+                                         'flag': c['fb'] in ('flag', 'both', 'flag+env0', 'flag+envyes')}, cwd='/home/u/w')
         r = sb.run(argv, env=env, cwd='/home/u/w', now='2024-02-02T02:02:02')
         after = sb.snapshot()
         want_real = sb.probe(chooser.realpaths, [ref['dir']] if ref['verdict'] == 'dir' else [], cwd='/home/u/w')
